@@ -329,6 +329,62 @@ func c15(tier string) int {
 			}
 		}
 	}
+	// maps whose entries have locations of DIFFERENT lengths, as reference-encoded images in every order of the
+	// entries (the repository's encoder walks a Go map, so the order on disk is arbitrary): each must decode to
+	// exactly the entries that were encoded
+	{
+		locs := []string{"", "7", "10.0.0.7:", "gca-server-1.example.org", strings.Repeat("w", 255)}
+		entry := func(i int) (glow.PublicKey, client.GCAServer, []byte) {
+			e := client.GCAServer{Banned: i%2 == 0, Location: locs[i], HttpPort: uint16(1000 + i), TcpPort: uint16(2000 + i), UdpPort: uint16(3000 + i)}
+			k := pk(byte(100 + i))
+			b := append([]byte{}, k[:]...)
+			bn := byte(0)
+			if e.Banned {
+				bn = 1
+			}
+			b = append(b, bn, byte(len(e.Location)), byte(len(e.Location)>>8))
+			b = append(b, e.Location...)
+			for _, p := range []uint16{e.HttpPort, e.TcpPort, e.UdpPort} {
+				b = append(b, byte(p), byte(p>>8))
+			}
+			return k, e, b
+		}
+		var orders [][]int
+		for a := range locs {
+			for b := range locs {
+				if a == b {
+					continue
+				}
+				orders = append(orders, []int{a, b})
+				for c := range locs {
+					if c != a && c != b {
+						orders = append(orders, []int{a, b, c})
+					}
+				}
+			}
+		}
+		for _, o := range orders {
+			want := map[glow.PublicKey]client.GCAServer{}
+			var img []byte
+			for _, i := range o {
+				k, e, b := entry(i)
+				want[k] = e
+				img = append(img, b...)
+			}
+			run.Count("evaluations", 1)
+			got, err := client.UntrustedDeserializeGCAServerMap(img)
+			if err != nil || !reflect.DeepEqual(got, want) {
+				bad("server-map/mixed-length-order", fmt.Sprintf("location lengths in image order %v: err=%v", o, err))
+				break
+			}
+			// and what the repository encodes from that map decodes to it again, whatever order it chose
+			raw, err := client.SerializeGCAServerMap(want)
+			if back, err2 := client.UntrustedDeserializeGCAServerMap(raw); err != nil || err2 != nil || !reflect.DeepEqual(back, want) {
+				bad("server-map/mixed-length-round-trip", fmt.Sprint(o, err, err2))
+				break
+			}
+		}
+	}
 	// truncations of one-entry maps whose location length is at the top of the uint16 range (length arithmetic
 	// that wraps would let a cut input through): every cut in the first and last 64 bytes, strided in between
 	for _, ll := range []int{65529, 65530, 65531, 65534, 65535} {
@@ -416,7 +472,7 @@ func c15(tier string) int {
 	run.Coverage["evaluations"] = run.Counter("evaluations")
 	run.Coverage["distinct_nontrivial"] = len(signing)
 	run.Coverage["distinct_signing_byte_strings"] = len(signing)
-	run.Coverage["rule"] = "boundary products per field (0, 1, mid pattern, sign bit, max; floats 0, -0, +-smallest subnormal, +-max, 3-decimal values) for report, authorization, registration, authorized server, migration order, weekly statistics (0-2 devices, streams of 1-5 records), client server map (0-3 entries, location lengths 0/1/255/256/65535/65536); bytes compared with independent little-endian reference encoders; every length 0..len+2 for fixed-size structures and every/strided prefix for streams; all single-bit flips of message, signature and key for three messages; distinct = distinct signing-byte strings in the corpus (checked pairwise distinct across values and types)"
+	run.Coverage["rule"] = "boundary products per field (0, 1, mid pattern, sign bit, max; floats 0, -0, +-smallest subnormal, +-max, 3-decimal values) for report, authorization, registration, authorized server, migration order, weekly statistics (0-2 devices, streams of 1-5 records), client server map (0-3 entries, location lengths 0/1/255/256/65535/65536; plus all 80 ordered images of 2-3 entries with pairwise different location lengths 0/1/9/24/255); bytes compared with independent little-endian reference encoders; every length 0..len+2 for fixed-size structures and every/strided prefix for streams; all single-bit flips of message, signature and key for three messages; distinct = distinct signing-byte strings in the corpus (checked pairwise distinct across values and types)"
 	run.Sample(fmt.Sprintf("report signing bytes for (1,2,3): %x", refReportSigningBytes(1, 2, 3)))
 	run.Sample(fmt.Sprintf("authorization with latitude -0, subnormal longitude: %x...", refAuthBytes(auths[5])[:60]))
 	return run.Finish()
